@@ -100,7 +100,33 @@ theorem ldrImm12_target {S P : Int} {data out : List Nat} (hlen : data.length = 
 
 /-! ### thumb `b_imm11_imm6` (B<c>.W, T3; ppci sets J1 = J2 = S) -/
 
-theorem or_bit2 : ∀ b, b < 256 → b / 4 % 2 = 0 → b ||| 4 = b + 4 := by decide
+theorem or_bit2 (b : Nat) (_hb : b < 256) (h : b / 4 % 2 = 0) : b ||| 4 = b + 4 := by
+  have hr : b % 8 < 4 := by omega
+  have eb : b = (b / 8) <<< 3 ||| b % 8 := by
+    rw [← Nat.shiftLeft_add_eq_or_of_lt (by norm_num; omega), Nat.shiftLeft_eq]; omega
+  have e4 : b % 8 ||| 4 = 4 + b % 8 := by
+    rw [Nat.or_comm, show (4 : Nat) = 1 <<< 2 from rfl, ← Nat.shiftLeft_add_eq_or_of_lt (by norm_num; exact hr)]
+  rw [eb, Nat.or_assoc, e4, ← Nat.shiftLeft_add_eq_or_of_lt (by norm_num; omega), ← Nat.shiftLeft_add_eq_or_of_lt (by norm_num; omega)]
+  omega
+
+theorem word_split {o0 o1 o2 o3 : Nat} (h0 : o0 < 256) (h1 : o1 < 256) (h2 : o2 < 256) :
+    (o0 + 256 * (o1 + 256 * (o2 + 256 * o3))) % 65536 = o0 + 256 * o1
+    ∧ (o0 + 256 * (o1 + 256 * (o2 + 256 * o3))) / 65536 = o2 + 256 * o3 := by omega
+
+theorem half_bits {a b : Nat} (ha : a < 256) :
+    (a + 256 * b) / 2 ^ 10 % 2 ^ 1 = b / 4 % 2 ∧ (a + 256 * b) / 2 ^ 0 % 2 ^ 6 = a % 64
+    ∧ (a + 256 * b) / 2 ^ 13 % 2 ^ 1 = b / 32 % 2 ∧ (a + 256 * b) / 2 ^ 11 % 2 ^ 1 = b / 8 % 2
+    ∧ (a + 256 * b) / 2 ^ 0 % 2 ^ 11 = a + 256 * (b % 8) := by
+  norm_num; omega
+
+theorem bcw_final (d i : Int) (hd : d % 2 = 0) (h1 : -262144 ≤ d) (h2 : d < 262144) (hi : i = d / 2 % 4294967296)
+    (sb n6 n2 n3 : Nat) (hsb : (sb : Int) = i / 131072 % 2) (e6 : (n6 : Int) = i / 2048 % 64)
+    (e2 : (n2 : Int) = i % 2048 % 256) (e3 : (n3 : Int) = i % 2048 / 256 % 8) :
+    Spec.Bits.wrapS 21 ((sb * 1048576 + sb * 524288 + sb * 262144 + n6 * 4096 + (n2 + 256 * n3) * 2 : Nat) : Int) = d := by
+  unfold Spec.Bits.wrapS
+  push_cast
+  norm_num
+  split <;> omega
 theorem or_b3_40 (b : Nat) (_hb : b < 256) (x : Nat) (hx : x < 8) (h : b % 64 = 0) : (b ||| x) ||| 40 = b + x + 40 := by
   have e : x ||| 40 = 40 + x := by
     rw [Nat.or_comm, show (40 : Nat) = 5 <<< 3 from rfl, ← Nat.shiftLeft_add_eq_or_of_lt (by norm_num; exact hx)]
@@ -182,31 +208,20 @@ theorem bImm11Imm6_target {S P : Int} {data out : List Nat} (hlen : data.length 
   have e4 : (n4 : Int) = i / 131072 % 2 * 40 := by rw [← hn4]; exact Int.toNat_of_nonneg (by omega)
   have e6 : (n6 : Int) = i / 2048 % 64 := by rw [← hn6]; exact Int.toNat_of_nonneg (by omega)
   have e1 : (n1 : Int) = i / 131072 % 2 * 4 := by rw [← hn1]; exact Int.toNat_of_nonneg (by omega)
-  clear h6 hs hj hor3 hor1 hx h6' a0 a1 a2
-  -- the four output bytes and what the decoder reads from them
   obtain ⟨sb, hsb⟩ : ∃ sb : Nat, (sb : Int) = i / 131072 % 2 := ⟨(i / 131072 % 2).toNat, Int.toNat_of_nonneg (by omega)⟩
-  have hsb01 : sb = 0 ∨ sb = 1 := by omega
   have q1 : n1 = 4 * sb := by omega
   have q4 : n4 = 40 * sb := by omega
-  generalize ho0 : b0 + n6 = o0
-  generalize ho1 : b1 + n1 = o1
-  generalize ho3 : b3 + n3 + n4 = o3
-  have p0 : o0 < 256 ∧ o0 % 64 = n6 := by norm_num at hb0; omega
-  have p1 : o1 < 256 ∧ o1 / 4 % 2 = sb := by omega
-  have p3 : o3 < 256 ∧ o3 % 8 = n3 ∧ o3 / 8 % 2 = sb ∧ o3 / 32 % 2 = sb := by omega
+  have hb0' : b0 % 64 = 0 := by norm_num at hb0; exact hb0
+  have p0 : b0 + n6 < 256 ∧ (b0 + n6) % 64 = n6 := by omega
+  have p1 : b1 + n1 < 256 ∧ (b1 + n1) / 4 % 2 = sb := by omega
+  have p3 : (b3 + n3 + n4) % 8 = n3 ∧ (b3 + n3 + n4) / 8 % 2 = sb ∧ (b3 + n3 + n4) / 32 % 2 = sb := by omega
   have p2 : n2 < 256 := by omega
-  have w1 : (o0 + 256 * (o1 + 256 * (n2 + 256 * o3))) % 65536 = o0 + 256 * o1 := by omega
-  have w2 : (o0 + 256 * (o1 + 256 * (n2 + 256 * o3))) / 65536 = n2 + 256 * o3 := by omega
+  obtain ⟨w1, w2⟩ := word_split (o3 := b3 + n3 + n4) p0.1 p1.1 p2
   simp only [w1, w2]
-  have f1 : (o0 + 256 * o1) / 2 ^ 10 % 2 ^ 1 = sb := by norm_num; omega
-  have f2 : (n2 + 256 * o3) / 2 ^ 13 % 2 ^ 1 = sb := by norm_num; omega
-  have f3 : (n2 + 256 * o3) / 2 ^ 11 % 2 ^ 1 = sb := by norm_num; omega
-  have f4 : (o0 + 256 * o1) / 2 ^ 0 % 2 ^ 6 = n6 := by norm_num; omega
-  have f5 : (n2 + 256 * o3) / 2 ^ 0 % 2 ^ 11 = n2 + 256 * n3 := by norm_num; omega
-  rw [f1, f2, f3, f4, f5]
-  clear w1 w2 f1 f2 f3 f4 f5 p0 p1 p3 ho0 ho1 ho3 hb0 hb1 hb3 h0 h1 h2 h3 hb
-  unfold Spec.Bits.wrapS
-  norm_num at hi ⊢
-  split <;> omega
+  obtain ⟨f1, f4, _, _, _⟩ := half_bits (b := b1 + n1) p0.1
+  obtain ⟨_, _, f2, f3, f5⟩ := half_bits (b := b3 + n3 + n4) p2
+  rw [f1, f2, f3, f4, f5, p0.2, p1.2, p3.1, p3.2.1, p3.2.2]
+  have := bcw_final (S - (P + 4)) i (by omega) (by omega) (by omega) (by rw [← hi]; norm_num) sb n6 n2 n3 hsb e6 e2 e3
+  rw [this]; ring
 
 end Proofs.Reloc
